@@ -210,3 +210,7 @@ func verifQuiesce() int { time.Sleep(30 * time.Millisecond); return 0 }
 // verifStepBegin marks the end of the pre-state construction (the engine's
 // state-field audit starts counting here); no effect natively.
 func verifStepBegin() {}
+
+// verifAdvanceClock: time passes between two harness steps. Engine: the
+// symbolic clock jumps by d; natively the harness really waits (keep d small).
+func verifAdvanceClock(d time.Duration) { time.Sleep(d) }
